@@ -1,13 +1,16 @@
 """Run the sensitivity catalogue: apply one mutation at a time to a scratch copy of /repo/src and run the property's
-quick check against it (FSIM_REPO_SRC).  usage: tools/sensitivity.py [--validate] [--runs N] [PROP ...]
+quick check against it (FSIM_REPO_SRC).  usage: tools/sensitivity.py [--validate] [--runs N] [--catalogue catalogue_ldm] [--only NAME] [--out FILE] [PROP ...]
 Writes /verif/mutants/RESULTS.json (mutant -> caught / survived, signatures)."""
 import json, os, re, shutil, subprocess, sys, tempfile
 VERIF = os.path.dirname(os.path.dirname(os.path.abspath(__file__)))
 sys.path.insert(0, VERIF)
-from mutants.catalogue import CATALOGUE
+import importlib
 
 def main():
     args = sys.argv[1:]
+    cat = args[args.index("--catalogue") + 1] if "--catalogue" in args else "catalogue"     # e.g. catalogue_ldm
+    CATALOGUE = importlib.import_module("mutants." + cat).CATALOGUE
+    only = args[args.index("--only") + 1] if "--only" in args else None
     validate = "--validate" in args
     runs = None
     if "--runs" in args:
@@ -19,7 +22,7 @@ def main():
     for ent in CATALOGUE:
         prop, name, rel, old, new = ent[:5]
         count = ent[5] if len(ent) > 5 else 1
-        if props and prop not in props:
+        if (props and prop not in props) or (only and name != only):
             continue
         src = open(os.path.join("/repo/src/flexstack", rel)).read()
         if src.count(old) != count:
